@@ -54,6 +54,17 @@ def r1(ctx, F, rule, sfx):
             continue
         if b is cub:
             continue
+        # a closure of, or a private helper called only from, one of the two analysed constructors: its planes are part of
+        # what that constructor returns (the abstract evaluation inlines it)
+        def owned_by(x, roots, depth=0):
+            if any(x is r_ or x['path'].startswith(r_['path'] + '::{closure') for r_ in roots):
+                return True
+            if depth > 3 or x.get('exported'):
+                return False
+            callers = [bb for bb in F.bodies for _bl, tt in calls(bb) if callee_name(tt) == x['path']]
+            return bool(callers) and all(owned_by(c_, roots, depth + 1) for c_ in callers)
+        if owned_by(b, [cub, sc.body]):
+            continue
         # any other constructor site: exempt only if it converts from a type that is not exported (cannot be called by users)
         alt = F.adt('voronoi::convex_cell_alternative::ConvexCell', required=False)
         if 'convex_cell_alternative' in b['path'] and alt is not None and not alt.get('exported'):
@@ -100,7 +111,7 @@ def face_integral_impls(F):
         bodies = {m: F.body('<%s as voronoi::integrals::FaceIntegral>::%s' % (st, m), required=False) for m in ('init', 'collect', 'finalize')}
         if all(bodies.values()):
             a = F.adt(st, required=False)
-            fields = [f['name'] for f in a['variants'][0]['fields']] if a else []
+            fields = deep_fields(F, st) if a else []
             out.append((st, bodies, fields))
     return out
 
@@ -114,20 +125,20 @@ def r2(ctx, F, rule, sfx):
     cell = I.Sym(nf.sym_atom('cell'), 'voronoi::convex_cell::ConvexCell<M>')
     v, _ = ip.call_body(bodies['init'], [ip.ref_to(cell), RF.sym('k')])
     ctx.evaluations += ip.evaluations
-    got = c3(I.get_field(v, 'normal'))
+    got = c3(dget(v, 'normal'))
     pn = c3(I.get_field(I.get_field(I.get_index(I.get_field(cell, 'clipping_planes'), RF.sym('k'), 'voronoi::half_space::HalfSpace'), 'plane'), 'n', 'glam::DVec3'))
     w = where(bodies['init'])
     ctx.check(rule, 'normal-is-minus-plane-normal' + sfx, all(got[i] == -pn[i] for i in range(3)), 'normal.x = %r' % got[0], '-cell.clipping_planes[k].plane.n.x (outward)', w, key_extra='sign')
     # unchanged by collect / finalize
-    me = I.St(st, st.split('::')[-1], {'area': RF.sym('S'), 'centroid': I.sym_vec3('C'), 'normal': I.sym_vec3('N')})
+    me = deep_sym(F, st)
     ip = I.Interp(F, no_inline=['geometry::signed_area_tri'])
     r = ip.ref_to(me, mut=True)
     ip.call_body(bodies['collect'], [r] + [I.sym_vec3(x) for x in ('v0', 'v1', 'v2', 'g')])
     after = I.read_lv(r.lv)
     out, _ = ip.call_body(bodies['finalize'], [after])
     ctx.evaluations += ip.evaluations
-    keep = [repr(x) for x in c3(I.get_field(out, 'normal'))] == ['N.x', 'N.y', 'N.z']
-    ctx.check(rule, 'normal-untouched-by-accumulation' + sfx, keep, repr(I.get_field(out, 'normal'))[:80], 'the value set at creation', where(bodies['collect']), key_extra='keep')
+    keep = [repr(x) for x in c3(dget(out, 'normal'))] == ['N.x', 'N.y', 'N.z']
+    ctx.check(rule, 'normal-untouched-by-accumulation' + sfx, keep, repr(dget(out, 'normal'))[:80], 'the value set at creation', where(bodies['collect']), key_extra='keep')
     # accessors, end to end: a face created for plane k of a cell, fed one triangle and finalised, reports through its
     # public accessors the outward normal of plane k, the cell's index, and the neighbour / shift of plane k
     # (no private field names are assumed)
@@ -185,12 +196,7 @@ def r2(ctx, F, rule, sfx):
 
 def accumulator_form(ctx, F, st, bodies, fields):
     """-> dict of normal-form facts about one area/centroid accumulator."""
-    f = {'area': RF.sym('S')}
-    if 'centroid' in fields:
-        f['centroid'] = I.sym_vec3('C')
-    if 'normal' in fields:
-        f['normal'] = I.sym_vec3('N')
-    me = I.St(st, st.split('::')[-1], f)
+    me = deep_sym(F, st)
     ip = I.Interp(F, no_inline=['geometry::signed_area_tri'])
     r = ip.ref_to(me, mut=True)
     pts = [I.sym_vec3(x) for x in ('v0', 'v1', 'v2', 'g')]
@@ -202,18 +208,18 @@ def accumulator_form(ctx, F, st, bodies, fields):
     if len(sa) == 1:
         res['sa_args'] = [repr(x).replace(' ', '') for x in sa[0].fargs]
         a = as_rf(sa[0].result)
-        res['area_inc'] = as_rf(I.get_field(after, 'area')) - RF.sym('S')
+        res['area_inc'] = as_rf(dget(after, 'area')) - RF.sym('S')
         res['area_ok'] = res['area_inc'] == a
         if 'centroid' in fields:
             P = [c3(x) for x in pts]
-            Cn = c3(I.get_field(after, 'centroid'))
+            Cn = c3(dget(after, 'centroid'))
             res['centroid_ok'] = all(Cn[i] == RF.sym('C.' + 'xyz'[i]) + a * (P[0][i] + P[1][i] + P[2][i]) for i in range(3))
     ip2 = I.Interp(F)
     out, _ = ip2.call_body(bodies['finalize'], [me])
     ctx.evaluations += ip2.evaluations
-    res['fin_area'] = repr(I.get_field(out, 'area'))
+    res['fin_area'] = repr(dget(out, 'area'))
     if 'centroid' in fields:
-        oc = c3(I.get_field(out, 'centroid'))
+        oc = c3(dget(out, 'centroid'))
         ok_pos = ok_zero = False
         extra = []
         for conds, leaf in split_cases(oc[0]):
